@@ -120,6 +120,7 @@ def finish(rep, wall, root):
         "violations": n_unknown_sigs,
         "known_findings_observed": sorted({v["sig"] for v in rep.violations} - seen_sig),
         "notes": rep.notes,
+        "violation_sigs": sorted(rep._sig_seen)[:400],
     }
     check_evidence(ev)
     with open(os.path.join(root, "evidence", f"{rep.pid}.json"), "w") as f:
